@@ -2,6 +2,7 @@
 
 from __future__ import annotations
 
+from functools import partial
 from typing import TYPE_CHECKING
 from typing import Union
 
@@ -266,6 +267,7 @@ class Filter:
     def evaluate(self, left: object, context: RenderContext) -> object:
         func = context.filter(self.name, token=self.token)
         positional_args, keyword_args = self.evaluate_args(context)
+        self._check_reserved_arguments(func, keyword_args)
         try:
             return func(left, *positional_args, **keyword_args)
         except TypeError as err:
@@ -277,6 +279,7 @@ class Filter:
     async def evaluate_async(self, left: object, context: RenderContext) -> object:
         func = context.filter(self.name, token=self.token)
         positional_args, keyword_args = await self.evaluate_args_async(context)
+        self._check_reserved_arguments(func, keyword_args)
 
         try:
             if hasattr(func, "filter_async"):
@@ -287,6 +290,22 @@ class Filter:
         except (LiquidTypeError, FilterArgumentError) as err:
             err.token = self.token
             raise err
+
+    def _check_reserved_arguments(
+        self, func: object, keyword_args: dict[str, object]
+    ) -> None:
+        """Raise an error if a keyword argument would replace an injected one.
+
+        Filters that ask for the render context or environment get them as the
+        keyword arguments `context` and `environment`.
+        """
+        if isinstance(func, partial):
+            for name in func.keywords:
+                if name in keyword_args:
+                    raise FilterArgumentError(
+                        f"{self.name}: {name!r} is a reserved argument name",
+                        token=self.token,
+                    )
 
     def evaluate_args(
         self, context: RenderContext
